@@ -16,10 +16,14 @@ TRUSTED = [
 ]
 ASSUMES = [
     'concurrent builds are serialised by main._def_build_lock, so a concurrent execution is one interleaving of whole builds (validated by the 4-thread runs, not proved: OS scheduling)',
-    'errors raised by builds are Exception subclasses (a BaseException such as KeyboardInterrupt is not caught by SynthDef._build; reported as an observation)',
+    'a build started by the graph function of another build on the same thread (nested SynthDef(...) / sdef.add()) is outside the quantifier: with the non re-entrant lock it dead-locks (probed, reported as an observation)',
 ]
 
+BASE_KINDS = ('BuildBase', 'SystemExit', 'GeneratorExit', 'KeyboardInterrupt', 'GraphFuncBase')
+
 FAIL_PROGS = [
+    {'ins': [['raise', 'exc']]},                                                                            # first statement, nothing created
+    {'kr': ['0'], 'ir': ['1'], 'ins': [['raise', 'exc']]},                                                  # after the controls only
     {'ins': [['U', 'Saw', 'control', [['c', '1']]], ['raise', 'exc']]},                                   # graph function raises
     {'ins': [['U', 'Saw', 'control', [['c', '1']]], ['out', 'audio', ['c', '0'], [['v', 0, 0]]]]},          # input check fails
     {'ins': [['U', 'Saw', 'audio', [['c', '1']]], ['U', 'LPF', 'control', [['v', 0, 0], ['c', '3']]], ['out', 'control', ['c', '0'], [['v', 1, 0]]]]},
@@ -44,6 +48,16 @@ def correspond(ctx):
         try:
             results[(mode, hs)] = ctx.impl('c20_builds', payload, mode=mode, hashseed=hs, timeout=600)
         except fw.ImplError as e:
+            if 'exported buffers' in str(e) or 'rc=-11' in str(e):
+                if not any(f.signature == 'C20:gc-segfault-as-bytes' for f in c.failures):
+                    c.failures.append(Failure('correspondence',
+                                              'the interpreter crashed in the garbage collector while definitions whose as_bytes() had been taken were '
+                                              'collected (SynthDef.as_bytes keeps stream.getbuffer()): %s' % ' '.join(str(e)[-300:].split()),
+                                              replay={'mode': mode, 'hashseed': hs,
+                                                      'repro': "for n in range(200): sd = SynthDef('a%d' % n, lambda: Out.ar(0, Saw.ar(3) * 2)); "
+                                                               "b = bytes(sd.as_bytes()); del sd\ngc.collect()"},
+                                              found_input=True, signature='C20:gc-segfault-as-bytes', theorem='failed_build_no_residue'))
+                continue
             c.failures.append(Failure('correspondence', 'C20 runner failed in mode %s hashseed %s: %s' % (mode, hs, str(e)[-800:]),
                                       replay={'mode': mode, 'hashseed': hs}))
     if not results:
@@ -71,9 +85,35 @@ def correspond(ctx):
         else:
             if not next(iter(allb)).startswith('FAIL'):
                 c.nontriv(('det', i, next(iter(allb))[:64]))
+    names = sorted(set(n for r in results.values() for n in r.get('extras', {})))
+    for name in names:
+        allb = {}
+        for key, r in results.items():
+            for k, b in enumerate(r.get('extras', {}).get(name, [])):
+                allb.setdefault(b, []).append((key, k))
+                nbuilds += 1
+        c.count('extra:' + name, sum(len(v) for v in allb.values()))
+        if len(allb) != 1 or next(iter(allb)).startswith(('FAIL', 'ERR')):
+            kinds = {b[:60]: v[:3] for b, v in allb.items()}
+            c.failures.append(Failure('correspondence',
+                                      'the Python-level definition %r (harness/impl/c20_extras.py) built to different results or failed: %s'
+                                      % (name, json.dumps(kinds, default=str)),
+                                      replay={'extra': name, 'variants': {b[:200]: v[:6] for b, v in allb.items()}},
+                                      found_input=True, signature='C20:nondeterministic-bytes', theorem='arrange_independent_of_set_order'))
+        else:
+            c.nontriv(('xdet', name, next(iter(allb))[:64]))
+    if not names:
+        c.failures.append(Failure('correspondence', 'the Python-level scenarios (c20_extras) did not run'))
     # ---- residue: context state after every phase, in every process
+    reported = set()
     for key, r in results.items():
         for phase, st, outside in r['ctx']:
+            if phase == 'class-state':
+                c.failures.append(Failure('correspondence',
+                                          'class-level mutable state of the synth modules changed during %s (mode, hashseed = %s): added %s removed %s'
+                                          % (st[0], key, st[1], st[2]), replay={'phase': st[0], 'added': st[1], 'removed': st[2]},
+                                          found_input=True, signature='C20:class-state', theorem='failed_build_no_residue'))
+                continue
             if phase in ('writer-result', 'library-use-error'):
                 if phase == 'writer-result' and not str(st).startswith('ERR:'):
                     c.notes.append('writer did not raise for a 300-byte name: %s' % str(st)[:40])
@@ -81,12 +121,20 @@ def correspond(ctx):
                     c.notes.append('library-use phase: %s' % st)
                 continue
             c.count('ctx-check:' + '-'.join(phase.split('-')[1:3]))
-            if st != [True, True] or outside is not True:
+            if (st != [True, True] or outside is not True) and phase in reported:
+                c.count('residue-repeated')
+            elif st != [True, True] or outside is not True:
+                reported.add(phase)
+                base = phase.startswith('after-xfail-') and phase.split('-')[-1] in BASE_KINDS
                 c.failures.append(Failure('correspondence',
-                                          'residue %s (mode, hashseed = %s): _current_synthdef is None / lock free = %s, outside UGen has no def = %s'
-                                          % (phase, key, st, outside),
-                                          replay={'phase': phase, 'mode': key[0], 'hashseed': key[1], 'fail_progs': FAIL_PROGS, 'progs': progs[:3]},
-                                          found_input=True, signature='C20:residue', theorem='ctx_released_on_every_path'))
+                                          'residue %s (mode, hashseed = %s): _current_synthdef is None / lock free = %s, outside UGen has no def = %s%s'
+                                          % (phase, key, st, outside,
+                                             ' -- the graph function raised a BaseException that is not an Exception; SynthDef._build only resets the '
+                                             'context in `except Exception:`' if base else ''),
+                                          replay={'phase': phase, 'mode': key[0], 'hashseed': key[1], 'fail_progs': FAIL_PROGS, 'progs': progs[:3],
+                                                  'scenario': 'harness/impl/c20_extras.py fails() ' + '-'.join(phase.split('-')[2:-1]) if phase.startswith('after-xfail-') else None},
+                                          found_input=True, signature='C20:baseexception-residue' if base else 'C20:residue',
+                                          theorem='ctx_released_on_every_path'))
             else:
                 c.nontriv(('ctx', key, phase))
         kinds = dict((a, b) for a, b in r.get('reads', []))
@@ -102,13 +150,31 @@ def correspond(ctx):
             c.failures.append(Failure('correspondence', 'thread phase failed (%s): %s' % (key, r['thread_errors'][:2]),
                                       replay={'mode': key[0], 'hashseed': key[1], 'errors': r['thread_errors'][:3]},
                                       found_input=True, signature='C20:threads', theorem='ctx_released_on_every_path'))
-        bp = r['base_probe']
-        if bp['ctx'][0] is False or bp['outside_has_no_def'] is False:
-            note = ('observation (outside the quantifier: not an Exception): a graph function raising a BaseException leaves '
-                    'main._current_synthdef set; a UGen created afterwards joins the dead definition (Example base_exception_leaves_residue)')
+        # every failing scenario must fail; a scenario that builds is either a silent miscompilation or a harness error
+        for name, kind, msg in r.get('xfails', []):
+            c.count('xfail:%s:%s' % (name, kind))
+            if kind == 'SilentDrop':
+                c.failures.append(Failure('correspondence', 'a unit generator that belongs to another definition was used in a graph function: '
+                                          'no error, and the definition lost its output unit (%s)' % msg,
+                                          replay={'scenario': 'harness/impl/c20_extras.py _build_foreign', 'mode': key[0], 'hashseed': key[1], 'msg': msg},
+                                          found_input=True, signature='C20:foreign-ugen-silent-drop', theorem='failed_build_no_residue'))
+            elif kind == 'ok':
+                c.failures.append(Failure('correspondence', 'failing scenario %r did not raise (%s)' % (name, key),
+                                          replay={'scenario': name, 'mode': key[0], 'hashseed': key[1]}))
+        if len(r.get('xfails', [])) < 20:
+            c.failures.append(Failure('correspondence', 'the failing Python-level scenarios did not all run: %s' % r.get('xfails')))
+        if r.get('args_before') != r.get('args_after'):
+            note = ('observation: SynthDef(..., rates=lst) pads the CALLER\'s list in place (`rates += [0] * ...` in _args_to_controls): shared build '
+                    'arguments before %s after %s; the bytes of later builds are unaffected' % (r.get('args_before'), r.get('args_after')))
+            if not any(n.startswith('observation: SynthDef(..., rates=lst)') for n in c.notes):
+                c.notes.append(note)
+        nb = r.get('nested') or {}
+        if nb and not nb.get('finished'):
+            note = ('observation (outside the quantifier): SynthDef(...) inside the graph function of another build dead-locks on the non re-entrant '
+                    'main._def_build_lock (thread still blocked after 3 s)')
             if note not in c.notes:
                 c.notes.append(note)
-            c.known_demonstrated.append(('C20:baseexception-residue', note))
+            c.known_demonstrated.append(('C20:nested-build-deadlock', note))
     # ---- the model: structure of every prog (reference process) and the context machine on the same event sequence
     items = ['(compile_flag T dce_strict dce_guard sub_guard %s, %s)' % (cc.cprog(p), cc.cresult(ref['progs'][i]['desc'])) for i, p in enumerate(progs)]
     body = 'Eval vm_compute in bad_idx (fun c => result_matches (fst c) (snd c)) cases.'
@@ -132,6 +198,10 @@ def correspond(ctx):
         n += 1
         evs.append('EBuild %d [%d] RaisesException' % (n, n))
         evs.append('EOutside 0')
+    for name, kind, _ in ref.get('xfails', []):
+        n += 1
+        evs.append('EBuild %d [%d; %d] %s' % (n, n, n + 1000, 'Succeeds' if kind == 'ok' else 'RaisesBase' if kind in BASE_KINDS else 'RaisesException'))
+        evs.append('EOutside 0')
     for label, kind in ref.get('reads', []):
         if label.startswith('build'):
             continue
@@ -140,7 +210,7 @@ def correspond(ctx):
         evs.append('EOutside 0')
     txt = ('From Coq Require Import List Bool. Import ListNotations.\nRequire Import SC3.model.BuildCtx SC3.gen.Gen_opcodes.\n'
            'Definition evs := [%s].\n'
-           'Eval vm_compute in (let r := run desc_read_finally ctx0 evs in (cur (fst r), locked (fst r), '
+           'Eval vm_compute in (let r := run build_finally desc_read_finally ctx0 evs in (cur (fst r), locked (fst r), '
            'forallb (fun o => match o with OOutside _ None => true | OOutside _ _ => false | OBlocked _ => false | _ => true end) (snd r))).\n'
            % '; '.join(evs))
     rc, out = ctx.coq('ctxrun', txt)
@@ -177,8 +247,12 @@ def search(ctx, failures):
         for phase, st, outside in r['ctx']:
             if phase in ('writer-result', 'library-use-error'):
                 continue
+            if phase == 'class-state':
+                continue
             if st != [True, True] or outside is not True:
+                base = phase.startswith('after-xfail-') and phase.split('-')[-1] in BASE_KINDS
                 found.append(Failure('search', 'residue %s: context/lock %s, outside UGen without def %s' % (phase, st, outside),
-                                     signature='C20:residue', replay={'phase': phase, 'fail_progs': FAIL_PROGS, 'hashseed': hs},
+                                     signature='C20:baseexception-residue' if base else 'C20:residue',
+                                     replay={'phase': phase, 'fail_progs': FAIL_PROGS, 'hashseed': hs},
                                      found_input=True, theorem='ctx_released_on_every_path'))
     return found[:5]
